@@ -12,7 +12,7 @@ COUNTS = ["c"]        # modes of cases.count_thresholds
 BIG_IO = lambda a: "-c" in a        # which command lines of cases.rand_cli the large-input stream keeps
 CHARS = ["a", " ", "é", "€", "😎", "́", "-", "Z", " ", "中"]
 # the first and last scalar of every UTF-8 length class and of every lead-byte class with its own rule (C2, DF, E0, E1, ED, EE, EF, F0, F1, F4)
-EDGES = ["\x7f", "\x80", "\u07ff", "\u0800", "\u0fff", "\u1000", "\ud7ff", "\ue000", "\ufffd", "\uffff", "\U00010000", "\U0003ffff", "\U00040000", "\U0010ffff"]
+EDGES = ["\x7f", "\x80", "\u07ff", "\u0800", "\u0fff", "\u1000", "\ud7ff", "\ue000", "\ufffd", "\uffff", "\U00010000", "\U0003ffff", "\U00040000", "\U0010ffff", "\r", "\u010a", "\u0100", "\u4e0a", "\u4e00"]
 
 
 def _run_once(chk):
